@@ -47,4 +47,9 @@ def k7(drv):
     return a['files'] != b['files']
 
 
-WITNESSES = {'K1': k1, 'K2': k2, 'K3': k3, 'K6': k6, 'K7': k7}
+def k5(drv):
+    import s_cmake
+    return s_cmake.k5_witness(drv)
+
+
+WITNESSES = {'K1': k1, 'K2': k2, 'K3': k3, 'K5': k5, 'K6': k6, 'K7': k7}
